@@ -108,6 +108,26 @@ Section C06.
     sub_call subs l s kid md = (Ok summary, str) -> l_name summary = JStr s \/ summary = empty_link.
   Proof. exact (sub_summary_name b64dec loads sig_ok now_s now_us exec). Qed.
 
+  (** what the parent receives as the delegating functionary's evidence: the sublayout is the
+      metadata's own payload (no parameters reach it); the summary is the sublayout's FIRST step's
+      representative's materials and its LAST step's representative's products (byproducts, command),
+      the representatives having passed the sublayout's own threshold agreement *)
+  Theorem C06_sub_summary_shape : forall subs l s kid md summary str,
+    sub_call subs l s kid md = (Ok summary, str) ->
+    exists ly chain reduced,
+      get_payload md = Ok (PLayout ly) /\
+      reduce_chain_links chain = Ok reduced /\
+      verify_threshold_constraints ly chain = Ok tt /\
+      match ly_steps ly with
+      | [] => summary = empty_link
+      | first :: _ =>
+          exists f la,
+            lookup (st_name first) reduced = Some f /\
+            lookup (st_name (last (ly_steps ly) first)) reduced = Some la /\
+            summary = mkLink (JStr s) (l_materials f) (l_products la) (l_byproducts la) (l_command la) (JDict [])
+      end.
+  Proof. exact (sub_summary_shape b64dec loads sig_ok now_s now_us exec). Qed.
+
   (** *** C06_failure_propagates.
       An [Err] returned by a recursive call that is reached (everything before it in load order
       went through) is the parent's result, with the events seen so far. *)
@@ -295,6 +315,7 @@ Print Assumptions C06_missing_dir.
 Print Assumptions C06_summary_shape.
 Print Assumptions C06_representative.
 Print Assumptions C06_summary_name.
+Print Assumptions C06_sub_summary_shape.
 Print Assumptions C06_failure_propagates.
 Print Assumptions C06_failure_propagates_deep.
 Print Assumptions C06_failure_origin.
